@@ -169,7 +169,8 @@ func (k msgServer) PurchaseWrkChainStateStorage(goCtx context.Context, msg *type
 	maxParam := k.GetParamMaxStorageLimit(ctx)
 	wrkchainStorageAfter := wrkchainStorage.InStateLimit + msg.Number
 
-	if wrkchainStorageAfter > maxParam {
+	// the sum above wraps for large numbers: compare with the remaining capacity instead
+	if msg.Number > k.GetMaxPurchasableSlots(ctx, msg.WrkchainId) {
 		return nil, sdkerrors.Wrap(types.ErrExceedsMaxStorage, fmt.Sprintf("%d will exceed max storage of %d", wrkchainStorageAfter, maxParam))
 	}
 
